@@ -175,6 +175,12 @@ PROPS = {
     },
     "C12": {
         "units": ["value"],
+        # routes that build redemption programs; their convert_witness sites are under contract in unit value, the rest is watched
+        "watch": [("src/node/construct.rs", "impl[impl<'brand> ConstructNode<'brand>] / fn:finalize_unpruned", "210497b57279ba22"),
+                  ("src/node/construct.rs", "impl[impl<'brand> ConstructNode<'brand>] / fn:finalize_pruned", "93b881c6965a26aa"),
+                  ("src/node/redeem.rs", "impl[=impl RedeemNode] / fn:prune", "5b79879edbd1c155"),
+                  ("src/node/redeem.rs", "impl[=impl RedeemNode] / fn:prune_with_tracker", "6aa527180b286c0e"),
+                  ("src/node/redeem.rs", "impl[=impl RedeemNode] / fn:decode", "eb74c1b7b9b5d381")],
         "native_cex": "c02_codec_replay",
         "native_thorough": "c02_codec_replay",
         "native_fallback": "c02_codec_replay",
